@@ -171,8 +171,8 @@ class MarkerPlan(Plan):
     technique = "contracts and loop invariants on the marker combinators (flatten_items, of(), cnf/dnf same-kind branch, intersection, union, class operators, only/exclude) over abstract markers " \
                 "with ev/uses ghosts; definitional axioms generated from the real evaluate() bodies; z3 with deterministic instantiation; atom layer by the bounded stand-in"
     trusted_base = ["A-ENGINE", "law.C13 (== implies same meaning/class/variables) as proved by the C13 check for atoms, bounded for compounds",
-                    "assumed contracts (guarded by the bounded part): the operator law on two single markers (atom layer: _merge_single_markers, EqualityMarkerUnion/InequalityMultiMarker operators), "
-                    "the distributive branch of cnf/dnf", "A-STDLIB set semantics: set(xs), issubset, intersection, difference, `in` decide membership by == with an element (hash consistent with ==: C13)",
+                    "assumed contracts (guarded by the bounded part): the distributive branch of cnf/dnf; for version-valued atoms the bridge 'an atom holds iff its specifier view admits the environment's value' "
+                    "(C11 a) and the meaning of _normalize_python_version_specifier (string arithmetic); from_specifier by its C11 contract", "A-STDLIB set semantics: set(xs), issubset, intersection, difference, `in` decide membership by == with an element (hash consistent with ==: C13)",
                     "A-HASHSEED", "A-TERM"]
     rtc = [("marker_algebra", None)]
 
@@ -199,7 +199,9 @@ class MarkerPlan(Plan):
                 jobs.append((f"{t}[{k}/{n}]", "marker_function", {"name": t, "timeout_ms": tmo, "vc_slice": (k, n) if n > 1 else None}))
         if self.pid in ("C02", "C15"):
             jobs += [(t, "atom_function", {"name": t, "timeout_ms": tmo}) for t in ATOM_TARGETS]
-        jobs.sort(key=lambda j: -heavy.get(j[2]["name"], 1))
+        if self.pid == "C02":
+            jobs.append(("C02.version-atoms", "atom_versions", {"timeout_ms": tmo}))
+        jobs.sort(key=lambda j: -heavy.get(j[2].get("name"), 1))
         _merge(common.run_jobs(jobs, nproc), named, functions, crashes)
         return named, functions, crashes, notes
 
@@ -208,7 +210,7 @@ class MarkerPlan(Plan):
             return "C12." in name or any(t + "#" in name for t in MARKER_TARGETS_C12)
         if self.pid == "C15":
             return "C15." in name
-        return not ("C12." in name) and not ("C15." in name) and not ("C03." in name) and any(name.startswith(t + "#") for t in MARKER_TARGETS_C02 + ATOM_TARGETS)
+        return not ("C12." in name) and not ("C15." in name) and not ("C03." in name) and any(name.startswith(t + "#") for t in MARKER_TARGETS_C02 + ATOM_TARGETS + ["dep_logic.markers.single:_merge_single_markers@versions"])
 
     def own_rtc(self, check):
         return check.startswith(self.pid + ".")
